@@ -7,7 +7,7 @@ import proto, gen, implutil
 
 THEOREMS = ['C18_limit_rule', 'C18_limit_sublist', 'C18_limit_membership', 'C18_limit_outside', 'C18_limit_reset', 'C18_limit_signal', 'C18_split_drop', 'C18_flatten', 'C18_flatten_labels']
 RULE = ("cycle tables of generated signals, both centrings x start/stop in {None, exactly 0, random, exactly on a cycle boundary (last/next side extremum / fs), windows containing no cycle} x "
-        "reset_indices x row labels 0..n-1 / repeated (flattened channels) / offset; limit_signal on the sample grid with the same limits, time axis starting at 0 or before 0; split_samples_df / drop_samples_df on the same tables (half of them with user-added columns whose names only contain 'sample_', object / boolean columns, another column order); flatten_dfs on 1-D and 2-D lists of tables "
+        "reset_indices x row labels 0..n-1 / repeated (flattened channels, half of them with the rows out of temporal order) / offset; limit_signal on the sample grid with the same limits, time axis starting at 0 or before 0; split_samples_df / drop_samples_df on the same tables (half of them with user-added columns whose names only contain 'sample_', object / boolean columns, another column order); flatten_dfs on 1-D and 2-D lists of tables "
         "with labels (and mismatching label counts; default and custom column_name); judge: Lean specifications limitSpec / limitSignalSpec, column partition, order and labels; "
         "distinct = distinct (table, limits, flags); non-trivial = a strict non-empty subset of the rows / samples is kept")
 ASSUMPTIONS = ["the window limits are shipped as the equivalent sample thresholds (smallest sample with s/fs >= start, largest with s/fs <= stop, computed in float64 as the implementation compares); the model is about the selection and the shift",
@@ -86,6 +86,10 @@ def evaluate(ctx, cases):
             times = (np.arange(n) - (n * c.get('shift', 0)) // 4) / fs
             if c.get('lab', 0):
                 df = df.copy(); df.index = (np.arange(len(df)) % 3) if c['lab'] == 1 else (np.arange(len(df)) + 5)
+                if c['lab'] == 1 and c['seed'] % 2 == 1:
+                    # flattened channels / epochs (flatten_dfs, pd.concat): the rows are NOT in temporal order - the selection is row by row
+                    h = len(df) // 2
+                    df = pd.concat([df.iloc[h:], df.iloc[:h]])
             if c['seed'] % 4 == 2: df = implutil.user_columns(df)        # (columns a user added are carried along with their rows, untouched)
             try:
                 na, nb = ((None if a is None else np.float64(a)), (None if b is None else np.float64(b))) if c['seed'] % 3 == 0 else (a, b)      # numpy-scalar limits
